@@ -568,7 +568,8 @@ func (r *renderer) stmt(indent int, s Stmt) {
 // Lines - logical lines of a program
 func Lines(p *Program, pol *Policy) []Line {
 	r := &renderer{pol: pol}
-	for _, im := range p.Imports {
+	for i := range p.Imports {
+		im := p.Imports[i]
 		var toks []Tok
 		if im.Lib {
 			toks = []Tok{kw("导入"), {S: "《" + im.Name + "》", K: TStr}}
@@ -579,7 +580,7 @@ func Lines(p *Program, pol *Policy) []Line {
 			toks = append(toks, kw("之"))
 			toks = append(toks, r.nameList(im.Items)...)
 		}
-		r.add(0, nil, toks...)
+		r.add(0, &p.Imports[i], toks...) // the line map is keyed by the address of the import
 	}
 	r.funcBody(0, p.Inputs, p.Body, p.Catches)
 	return r.lines
